@@ -44,6 +44,11 @@ def plan (tier, seed):
         for att in (0, 1, 2, 3):
             for var in ((0, 1) if tier == 'thorough' else (0,)):
                 cases.append (dict (fam = 'ring', n = n, att = att, var = var))
+    # two objects joined to each other at both ends: arc + chord ("D"), arc + arc, wire pair
+    for kind in ('arc-chord', 'arc-chord-rev', 'arc-arc', 'chord-first'):
+        for n in (4, 7):
+            for var in ((0, 1) if tier == 'thorough' else (0,)):
+                cases.append (dict (fam = 'dloop', kind = kind, n = n, var = var))
     n = 400 if tier == 'quick' else 6000
     cases += [dict (fam = 'graph', i = i, seed = seed) for i in range (n)]
     return cases
@@ -56,6 +61,8 @@ def make (c):
         return spec
     if c ['fam'] == 'ring':
         return make_ring (c)
+    if c ['fam'] == 'dloop':
+        return make_dloop (c)
     k, mask, perm, gnd, var = c ['k'], c ['mask'], c ['perm'], c ['gnd'], c ['var']
     lam  = 20.0
     segl = lam / (25 if var == 0 else 40)
@@ -116,6 +123,36 @@ def make_ring (c):
                 , tol = 1e-3 * min (lam / 25, 2 * rad * np.sin (np.pi / c ['n'])), style = 'auto')
 # end def make_ring
 
+def make_dloop (c):
+    from pmv.oracles import georef
+    lam = 20.0
+    n   = c ['n']
+    rad = lam / 25 * n / np.pi * (1.0 + 0.3 * c ['var'])
+    arc = dict (k = 'a', n = n, radius = rad, a1 = 0.0, a2 = 180.0, r = 0.005, tag = None)
+    nd  = georef.arc_nodes (n, rad, 0.0, 180.0)
+    A, B = nd [0], nd [-1]
+    ends = [dict (w = 0, e = 0, node = 'A', gnd = False), dict (w = 0, e = 1, node = 'B', gnd = False)]
+    if c ['kind'] == 'arc-arc':
+        arc2 = dict (k = 'a', n = n + 1, radius = rad, a1 = 180.0, a2 = 360.0, r = 0.005, tag = None)
+        geo  = [arc, arc2]
+        ends += [dict (w = 1, e = 0, node = 'B', gnd = False), dict (w = 1, e = 1, node = 'A', gnd = False)]
+    else:
+        m = max (2, int (round (2 * rad / (lam / 25))))
+        if c ['kind'] == 'arc-chord-rev':
+            w = gen.wire (m, A, B, 0.005)
+            we = [('A', 0), ('B', 1)]
+        else:
+            w = gen.wire (m, B, A, 0.005)
+            we = [('B', 0), ('A', 1)]
+        geo = [arc, w]
+        ends += [dict (w = 1, e = e, node = nd_, gnd = False) for nd_, e in we]
+        if c ['kind'] == 'chord-first':
+            w ['tag'] = 1
+            arc ['tag'] = 2
+    return dict ( f = 299.8 / lam, geo = geo, media = None, src = [], loads = [], ends = ends
+                , tol = 1e-3 * min (lam / 25, 2 * rad * np.sin (np.pi / (2 * n))) * 0.5, style = 'auto')
+# end def make_dloop
+
 def check (c):
     spec = c if 'geo' in c else make (c)
     MM   = common.repo ()
@@ -128,13 +165,15 @@ def check (c):
     # with one source and again after a second source has been added; the
     # second report is the one that is checked (it must describe the
     # second solution, not remembered pieces of the first).
+    # source voltages over many decades (junction currents from pico- to kiloamperes)
+    vs = 10.0 ** (((int (common.sha (sorted ((k, str (v)) for k, v in c.items () if k not in ('geo', 'ends', 'nodes', 'pick'))), 16) % 1000) / 1000.0) * 14 - 10) if c.get ('fam') != 'star' or c.get ('var') else 1.0
     m.sources = []
-    m.register_source (MM.Excitation (1+0.3j), 0)
+    m.register_source (MM.Excitation ((1+0.3j) * vs), 0)
     try:
         if N > 2:
             observe.solve (m)
             common.guarded (m.currents_as_mininec, 'currents_as_mininec')
-            m.register_source (MM.Excitation (0.4-1j), N - 1)
+            m.register_source (MM.Excitation ((0.4-1j) * vs), N - 1)
         observe.solve (m)
     except common.Repo_Crash as e:
         if 'LinAlgError' in e.key:
@@ -221,7 +260,7 @@ def check (c):
             continue
         exp = expected [(t, e)]
         # seven digits per printed component, six decimals (1e-6 absolute) for components of 0.1 .. 1
-        if abs (val - exp) > 6e-6 * max (abs (exp), abs (val)) + 1.5e-6 * (max (abs (val.real), abs (val.imag)) >= 0.1) + 1e-12:
+        if abs (val - exp) > 6e-6 * max (abs (exp), abs (val)) + 1.5e-6 * (max (abs (val.real), abs (val.imag)) >= 0.1) + 1e-30:
             parts = single [(t, e)]
             if e == 0 and len (parts) >= 2 and any (abs (val - x) <= 6e-6 * max (abs (x), Imax) + 1.5e-6 for x in parts):
                 viol.append (dict ( monitor = 'end-lines', key = 'end1-junction-line-single-pulse'
@@ -246,10 +285,12 @@ def check (c):
         if not ok:
             continue
         mon ['kcl'] = mon.get ('kcl', 0) + 1
-        if abs (tot) > (6e-6 * Imax + 1.5e-6 * (Imax >= 0.1)) * len (mem) + 1e-12:
+        if abs (tot) > (6e-6 * Imax + 1.5e-6 * (Imax >= 0.1)) * len (mem) + 1e-30:
             bad ('kcl', 'kcl-sum', 'junction %s of %d ends: into-junction currents sum to %r (max |I| %.3g)' % (node, len (mem), tot, Imax))
     sizes = sorted (len (v) for v in members.values () if len (v) > 1)
-    if c.get ('fam') == 'ring':
+    if c.get ('fam') == 'dloop':
+        sig = 'dloop|%s|n%d' % (c ['kind'], c ['n'])
+    elif c.get ('fam') == 'ring':
         sig = 'ring|n%d|att%d' % (c ['n'], c ['att'])
     elif 'fam' in c and c.get ('fam') == 'star':
         first = c ['perm'][0]
@@ -257,7 +298,7 @@ def check (c):
     else:
         kinds = ''.join (sorted (set (g ['k'] for g in spec ['geo'])))
         sig = 'graph|%s|%s|%s' % ('gnd' if spec ['media'] else 'free', sizes, kinds)
-    nontrivial = bool (sizes and (max (sizes) >= 3 or len (sizes) >= 2)) or c.get ('fam') == 'ring'
+    nontrivial = bool (sizes and (max (sizes) >= 3 or len (sizes) >= 2)) or c.get ('fam') in ('ring', 'dloop')
     return dict ( status = 'violation' if viol else 'held', sig = sig, nontrivial = nontrivial
                 , monitors = mon, violations = viol [:6], info = dict (N = N, sizes = sizes))
 # end def check
